@@ -141,7 +141,7 @@ condition_variable_wait(struct condition_variable* self, struct lock* lock)
     gh.peer_j = nd_uint();
     gh.peer_pos = nd_ulong();
     gh.peer_cycle = nd_ulong();
-    VASSUME(g_c.holds.n >= n0 && g_c.holds.n <= 8);
+    VASSUME(g_c.holds.n >= n0 && g_c.holds.n <= VERIF_MAX_READERS);
     VASSUME(INV(g_c));
     VASSUME(gh.peer_j < g_c.holds.n);
     VASSUME(PEER_OK(g_c));
@@ -409,6 +409,13 @@ static int g_status0;
 
 /* ================================================================== real code */
 #ifndef VERIF_NATIVE
+/* The contracts of the file-local helpers are only declared in the units that are about
+ * them (-DCHANNEL_STATICS: cursor_cmp, reader_min, next_write and the modular write_map).
+ * Every other unit speaks about the public functions alone, so a refactoring of the helpers
+ * (a changed signature, a merged or split helper) leaves those units buildable: the public
+ * contracts are then checked against whatever the helpers have become
+ * (channel.write_map.mono verifies channel_write_map with its helpers inlined). */
+#ifdef CHANNEL_STATICS
 static int
 cursor_cmp(size_t cycle_a, size_t pos_a, size_t cycle_b, size_t pos_b)
   DFCC_CONTRACT(cursor_cmp);
@@ -418,6 +425,7 @@ reader_min(const size_t* tails, const size_t* cycles, uint32_t n)
 static uint32_t
 next_write(const struct channel* self, size_t nbytes, size_t* beg, uint8_t* should_wrap)
   DFCC_CONTRACT(next_write);
+#endif
 void
 channel_new(struct channel* self, size_t capacity) DFCC_CONTRACT(channel_new);
 void*
@@ -502,6 +510,7 @@ arb_channel(void)
     return &g_c;
 }
 
+#ifdef CHANNEL_STATICS
 void
 h_cursor_cmp(void)
 {
@@ -546,6 +555,8 @@ h_next_write(void)
     VCOVER(ret && b == g_c.head && SAME_LAP(g_c, 0) && g_c.holds.n == 8, "case C: room at the end, 8 readers");
     H_END;
 }
+
+#endif /* CHANNEL_STATICS */
 
 void
 h_channel_write_map(void)
